@@ -60,7 +60,27 @@ let parse_query () =
   | "gwtag" -> QGWatchTag (next_str ())
   | "gsub" -> QGSub (z_of_dec (next ()))
   | "glist" -> let sk = z_of_dec (next ()) in let li = z_of_dec (next ()) in QGList (sk, li)
+  | "xb" -> QExtBool (next_int () <> 0)
+  | "xbs" -> QExtBoolSort (z_of_dec (next ()))
+  | "xs" -> QExtStr (next_str ())
+  | "xss" -> QExtStrSort (z_of_dec (next ()))
+  | "xg" -> QExtGroup
+  | "xw" -> QExtWatch
+  | "gxb" -> QGExtBool (next_int () <> 0)
+  | "tagc" -> let t = next_str () in let fwd = next_int () <> 0 in QTagCursor (t, fwd)
+  | "tagkeys" -> QTagKeys (next_int () <> 0)
+  | "linked" -> let i = next_str () in let g = next_str () in QLinked (i, g)
+  | "gidx" -> QGroupByName (next_str ())
   | s -> failwith ("bad query " ^ s)
+
+(* "at <place> <query>": the query on the store family at that place; without it place 0 *)
+let parse_placed () =
+  if !pos < Array.length !toks && !toks.(!pos) = "at" then begin
+    incr pos;
+    let d = next_int () in
+    let q = parse_query () in
+    (nat_of_int d, q)
+  end else (nat_of_int 0, parse_query ())
 
 let show_answer = function
   | AIds l -> String.concat " " ("Q ids" :: List.map hex_of_bytes l)
@@ -95,11 +115,11 @@ let () =
         Printf.printf "W %d\n" !nver
     | "Q" :: _ :: _ :: v :: rest ->
         toks := Array.of_list rest; pos := 0;
-        let q = parse_query () in
+        let q = parse_placed () in
         let a = get_versions () in
         let v = int_of_string v in
         if v < 0 || v >= Array.length a then print_endline "Q noversion"
-        else print_endline (show_answer (eval_query q a.(v)))
+        else print_endline (show_answer (eval_placed q a.(v)))
     | "S" :: _ -> print_endline "S same"
     | "P" :: _ -> print_endline "P same"
     | "X" :: _ -> print_endline "X ok"
